@@ -189,6 +189,14 @@ class Check:
             obj = {"property": self.prop, "key": v["key"], "what": v["what"], "case": jsonable(v["replay"])}
             with open(path, "w") as f:
                 json.dump(obj, f, indent=1, sort_keys=True)
+            # a plain unit test that replays the case without the explorer (pytest replays/test_replay_*.py)
+            tpath = os.path.join(REPLAY_DIR, f"test_replay_{self.prop}_{fingerprint(v['key'])}.py")
+            with open(tpath, "w") as f:
+                f.write('"""replays one recorded violation of %s: passes when the property holds for this case"""\n'
+                        "import subprocess\n\n\n"
+                        "def test_replay():\n"
+                        "    r = subprocess.run([%r, 'replay', %r], capture_output=True, text=True)\n"
+                        "    assert r.returncode == 0, r.stdout[-3000:]\n" % (self.prop, os.path.join(VERIF, "vcheck"), path))
             printed.append((v, path))
         ev = {
             "property_id": self.prop,
